@@ -25,6 +25,14 @@ class SrcErr(Exception):
     """error notifications of generated sources"""
 
 
+class FalsySrcErr(SrcErr):
+    """an error object whose truth value is False (exception classes may define __bool__/__len__): libraries must test
+    'is not None', never the truth value, to know whether an error is present"""
+
+    def __bool__(self) -> bool:
+        return False
+
+
 class Injected(Exception):
     """exception injected into a user callback"""
 
@@ -371,7 +379,7 @@ def gen_timeline(r: Any, domain: str = "ints", maxlen: int = 6, start: float = 0
     if term == "C":
         out.append((t, "C", None))
     elif term == "E":
-        out.append((t, "E", SrcErr("src@%s" % t)))
+        out.append((t, "E", (FalsySrcErr if r.random() < 0.12 else SrcErr)("src@%s" % t)))
     if nonconf and term:
         for _ in range(r.randint(1, 3)):
             t += r.choice((0, 5))
